@@ -88,12 +88,12 @@ def linspace (t0 d : Int) (n : Nat) : List Int := (List.range n).map fun (i : Na
 structure Sol (S : Type) where
   times : List Int
   states : List S
-deriving Repr
+deriving DecidableEq, Repr
 
 inductive Outcome (S : Type) where
   | error (e : Err)
   | sol (s : Sol S)
-deriving Repr
+deriving DecidableEq, Repr
 
 /-! ## fixed-step Runge–Kutta (`_integrate_fixed_rk`): `h = t_vals[idx+1] - t_n` (signed) -/
 
@@ -158,12 +158,17 @@ inductive Sample where
   | zeroDiv                           -- RK45: x = (t_q - t0) / 0
 deriving DecidableEq, Repr
 
+/-- segment index: `j = searchsorted(...) - 1; if j < 0: j = 0; if j > n_nodes - 2: j = n_nodes - 2`
+    (`r` = result of searchsorted; note `j = -1` when `n_nodes = 1`) -/
+def segIdx (n r : Nat) : Int :=
+  let j0 : Int := (r : Int) - 1
+  let j1 : Int := if j0 < 0 then 0 else j0
+  if j1 > (n : Int) - 2 then (n : Int) - 2 else j1
+
 /-- one iteration of the dense-output loop -/
 def query (k : Kind) (nodes : List Int) (q : Int) : Sample :=
   let n := nodes.length
-  let j0 : Int := (ssRight nodes q : Int) - 1
-  let j1 : Int := if j0 < 0 then 0 else j0
-  let j : Int := if j1 > (n : Int) - 2 then (n : Int) - 2 else j1
+  let j : Int := segIdx n (ssRight nodes q)
   let a := nodes.getD (wrapIdx n j) 0
   let b := nodes.getD (wrapIdx n (j + 1)) 0
   let hseg := b - a
